@@ -157,6 +157,22 @@ def unit_counter(F, fn, b):
     one = const_int(t['ops'][1]) == 1
     o = t['ops'][0]
     ok = False
+    if is_place(o) and one and '{closure' in fn.gpath and any(q == 'deref' for q in fn.canon(o['pl'])['p']):
+        # `*counter += 1` inside a closure (a loop body turned into try_for_each): the captured variable is a local of the
+        # parent that starts at 0 and is touched by nothing else
+        c = fn.canon(o['pl'])
+        fld = [q for q in c['p'] if isinstance(q, dict) and 'f' in q]
+        parent = F.fns.get(fn.gpath.split('::{closure')[0])
+        if c['l'] == 1 and fld and parent is not None:
+            idx = fld[0]['f']
+            built = [st for blk in parent.blocks for st in blk['stmts'] if st['k'] == 'assign' and st['rv']['k'] == 'agg' and st['rv'].get('ak') == 'closure' and st['rv']['def'] == fn.gpath]
+            if len(built) == 1 and idx < len(built[0]['rv']['ops']) and is_place(built[0]['rv']['ops'][idx]):
+                cap = parent.canon({'l': built[0]['rv']['ops'][idx]['pl']['l'], 'p': ['deref'], 'ty': ''})
+                ds = [d for d in parent.defs().get(cap['l'], []) if not parent.blocks[d[0]]['cleanup']]
+                init0 = len(ds) == 1 and ds[0][2] == 'assign' and ds[0][3]['rv']['k'] == 'use' and ds[0][3]['rv']['op']['k'] == 'const' and const_int(ds[0][3]['rv']['op']) == 0
+                stores = [st for blk in fn.blocks if not blk['cleanup'] for st in blk['stmts'] if st['k'] == 'assign' and st['lhs']['p'] and fn.canon(st['lhs'])['l'] == 1 and [q for q in fn.canon(st['lhs'])['p'] if isinstance(q, dict) and 'f' in q][:1] == fld[:1]]
+                ok = init0 and not cap['p'] and len(stores) == 1 and parent.local_ty(cap['l']) in ('usize', 'i32')
+        return ok, 'a counter of the enclosing function that starts at 0 and is incremented by 1 per element of an in-memory collection, through a closure'
     if is_place(o) and one:
         l = fn.canon(o['pl'])['l']
         an = Analyzer(fn, F, e5.make_summary(F))
